@@ -282,6 +282,7 @@ class Run:
         self.tasks = []
         self.stops = []          # (tick, id) RST-triggered stop() calls
         self.mid_owner = {}      # (remote, mid) -> id of the response sent with it
+        self.shared_objs = {}    # group name -> [the Message object its handlers hand out]
 
     def note(self, item):
         self.notes.append((self.loop.now_ticks(), item))
@@ -290,7 +291,8 @@ class Run:
     def make_handler(self, h):
         aiocoap = self.aiocoap
         run = self
-        shared = []
+        # "shared": "<name>": all handlers of the case naming the same group return ONE Message object
+        shared = self.shared_objs.setdefault(h["shared"], []) if h.get("shared") else []
 
         async def handler(res, request):
             rid = run.id_of_key.get((request.token, request.remote))
